@@ -3716,7 +3716,7 @@ fn evaluate_scalar_func(
                     } else {
                         let s1 = str1.value(i);
                         let s2 = str2.value(i);
-                        if s1.len() != s2.len() {
+                        if s1.chars().count() != s2.chars().count() {
                             None
                         } else {
                             Some(
